@@ -97,6 +97,15 @@ func genC24(g *Gen, tier string, w *bufio.Writer) {
 			fmt.Fprintln(w, d.op(g.U64()>>1))
 		}
 	}
+	// --- pruned schemas: conformance is per kept column
+	for i := 0; i < 20*mul; i++ {
+		mask := Pick(g, []string{"10", "01", "110", "011", "101", "100"})
+		d := genCSVDoc(g, Pick(g, []int{2, 5, 101, 130}), true)
+		if !dupNames(d.names) {
+			fmt.Fprintln(w, "proj "+mask+" "+d.op(g.U64()>>1))
+		}
+		fmt.Fprintln(w, "proj "+mask+" "+jsonOp(g.U64()>>1, genJSONDoc(g, Pick(g, []int{2, 5, 101, 130}), false)))
+	}
 	// --- JSON files
 	for rep := 0; rep < 2*mul; rep++ {
 		for _, n := range []int{1, 2, 5, 99, 100, 101, 102, 150} {
